@@ -126,7 +126,9 @@ func init() {
 		Assumptions: []string{assumeA1, assumeA3},
 		Run: func(r *Report) {
 			guard(r, func() { ruleStorageArms(r) })
-			guard(r, func() { ruleUnits(r, "C01.units", "every use of a row position has the unit its sink needs: indexes into per-block value arrays and per-block bitmaps are block-relative; offsets written to buffers, whole-collection bitmaps, lookup tables, the cursor, and passed to the offset-taking API are absolute (a mismatch is wrong for every block but the first)", 60, nil) })
+			guard(r, func() {
+				ruleUnits(r, "C01.units", "every use of a row position has the unit its sink needs: indexes into per-block value arrays and per-block bitmaps are block-relative; offsets written to buffers, whole-collection bitmaps, lookup tables, the cursor, and passed to the offset-taking API are absolute (a mismatch is wrong for every block but the first)", 60, nil)
+			})
 			guard(r, func() { ruleUnitDefs(r) })
 			guard(r, func() { ruleChunkAlloc(r) })
 			guard(r, func() { ruleWidths(r) })
@@ -139,7 +141,7 @@ func init() {
 			// the enum's shared string table is extended atomically with the lookup that missed
 			ruleL7sel(r, func(f string) bool { return f == "column.columnEnum.data" || f == "column.columnEnum.seek" }, false)
 			guard(r, func() { ruleSetQueued(r) })
-			guard(r, func() { ruleRowDelete(r) }) // "absent if nothing was stored since the row was inserted": deletes sweep every column
+			guard(r, func() { ruleRowDelete(r) })     // "absent if nothing was stored since the row was inserted": deletes sweep every column
 			guard(r, func() { ruleRegistryLists(r) }) // that sweep walks the registry without a lock: an entry shifted in place is skipped
 			guard(r, func() { foundation(r) })
 			guard(r, func() { ruleFootprint(r, "E.footprint", footSel("(column.rw", "(column.rd", "(column.Row)."), 40) })
@@ -160,7 +162,9 @@ func init() {
 			guard(r, func() { ruleUnits(r, "C02.units", unitsText, 5, reserveFns) })
 			guard(r, func() { ruleMarkerArms(r) })
 			guard(r, func() { ruleStorageArms(r) })
-			guard(r, func() { ruleFootprint(r, "E.footprint", footSel("(*column.Collection).Query", "(*column.Collection).QueryAt", "(*column.Collection).Insert", "(*column.Collection).DeleteAt", "(*column.Txn).Insert", "(*column.Txn).QueryAt", "(*column.Txn).DeleteAt"), 4) })
+			guard(r, func() {
+				ruleFootprint(r, "E.footprint", footSel("(*column.Collection).Query", "(*column.Collection).QueryAt", "(*column.Collection).Insert", "(*column.Collection).DeleteAt", "(*column.Txn).Insert", "(*column.Txn).QueryAt", "(*column.Txn).DeleteAt"), 4)
+			})
 		}})
 	register(&PropSpec{ID: "C03",
 		Explanation: "Bitmap indexes equal their predicate — structural part. (C03.arms) arm effects of columnIndex.Apply (Put: predicate, set on true edge / clear on false edge; Delete: clear); (C03.twopass) computed columns get a fresh pass over the merge-rewritten buffer after the column itself; (C03.rowdelete) row markers reach every registry entry; (C03.register) computed columns are registered under their own name and in the target's list, and dropped from both; (C03.backfill) index creation back-fills from every block; (C07.abs) every Snapshot implementation emits absolute offsets (the back-fill input); (C03.order) no reader method appends to the buffer being replayed; (C11.order) updates are applied before markers so a put+delete of one row leaves no index bit; (C01.arms) every storage Merge arm swaps the delta for the final value." + staticNote,
@@ -173,13 +177,19 @@ func init() {
 			guard(r, func() { ruleRegister(r) })
 			guard(r, func() { ruleBackfill(r) })
 			guard(r, func() { ruleRegistryLists(r) })
-			guard(r, func() { ruleUnits(r, "C03.units", unitsText, 2, anyOf(applyUnitFns("index"), fnsel("(*column.Collection).CreateIndex", "(*column.Collection).chunks"))) })
-			guard(r, func() { ruleUnits(r, "C07.abs", "every Snapshot implementation, the state writer and PutBitmap/Chunk.Range hand absolute offsets to the destination buffer and index per-block storage with relative ones", 6, snapshotFns) })
+			guard(r, func() {
+				ruleUnits(r, "C03.units", unitsText, 2, anyOf(applyUnitFns("index"), fnsel("(*column.Collection).CreateIndex", "(*column.Collection).chunks")))
+			})
+			guard(r, func() {
+				ruleUnits(r, "C07.abs", "every Snapshot implementation, the state writer and PutBitmap/Chunk.Range hand absolute offsets to the destination buffer and index per-block storage with relative ones", 6, snapshotFns)
+			})
 			guard(r, func() { ruleReplayOrder(r) })
 			guard(r, func() { ruleCommitOrder(r, true, false) })
 			guard(r, func() { ruleStorageArms(r) })
 			guard(r, func() { foundation(r) })
-			guard(r, func() { ruleFootprint(r, "E.footprint", footSel("(*column.Collection).CreateIndex", "(*column.Collection).DropIndex", "(*column.Collection).Query"), 3) })
+			guard(r, func() {
+				ruleFootprint(r, "E.footprint", footSel("(*column.Collection).CreateIndex", "(*column.Collection).DropIndex", "(*column.Collection).Query"), 3)
+			})
 			guard(r, func() { ruleSnapshotComplete(r) }) // the back-fill of a late index reads the same Put stream
 		}})
 	register(&PropSpec{ID: "C04",
@@ -194,11 +204,17 @@ func init() {
 			guard(r, func() { rulePool(r) })
 			guard(r, func() { ruleCountAndCache(r) })
 			guard(r, func() { ruleAggregatesReadOnly(r) })
-			guard(r, func() { ruleUnits(r, "C04.units", "filters, iteration and aggregates index per-block storage with block-relative offsets and hand absolute offsets to callbacks and the cursor", 12, filterFns) })
+			guard(r, func() {
+				ruleUnits(r, "C04.units", "filters, iteration and aggregates index per-block storage with block-relative offsets and hand absolute offsets to callbacks and the cursor", 12, filterFns)
+			})
 			guard(r, func() { ruleUnitDefs(r) })
-			guard(r, func() { ruleL3f(r, only("(*column.Txn).With", "(*column.Txn).Union", "(*column.Txn).Range", "(column.rdNumber[T])."), 10) })
+			guard(r, func() {
+				ruleL3f(r, only("(*column.Txn).With", "(*column.Txn).Union", "(*column.Txn).Range", "(column.rdNumber[T])."), 10)
+			})
 			guard(r, func() { foundation(r) })
-			guard(r, func() { ruleFootprint(r, "E.footprint", footSel("(*column.Txn).With", "(*column.Txn).Union", "(*column.Txn).Count", "(*column.Txn).Range", "(*column.Txn).Ascend", "(*column.Txn).DeleteAt", "(*column.Txn).DeleteAll", "(column.rdNumber[T])."), 12) })
+			guard(r, func() {
+				ruleFootprint(r, "E.footprint", footSel("(*column.Txn).With", "(*column.Txn).Union", "(*column.Txn).Count", "(*column.Txn).Range", "(*column.Txn).Ascend", "(*column.Txn).DeleteAt", "(*column.Txn).DeleteAll", "(column.rdNumber[T])."), 12)
+			})
 			guard(r, func() { ruleExtremeFold(r) })
 			guard(r, func() { ruleAccumulatorsFromZero(r) })
 			guard(r, func() { ruleInitializeFirst(r) })
@@ -236,7 +252,9 @@ func init() {
 			guard(r, func() { ruleReplayOrder(r) })
 			guard(r, func() { ruleStorageArms(r) })
 			guard(r, func() { ruleCommitUpdates(r) }) // primary and replica maintain computed columns the same way
-			guard(r, func() { ruleUnits(r, "C06.units", unitsText, 2, fnsel("(*column.Collection).Replay", "(*column.Txn).commit", "(*column.Txn).rangeWrite", "(*commit.Reader).Swap")) })
+			guard(r, func() {
+				ruleUnits(r, "C06.units", unitsText, 2, fnsel("(*column.Collection).Replay", "(*column.Txn).commit", "(*column.Txn).rangeWrite", "(*commit.Reader).Swap"))
+			})
 			guard(r, func() { ruleSerialFields(r) })
 			guard(r, func() { ruleDecodeFresh(r) })
 			guard(r, func() { ruleCodecFlags(r) })
@@ -248,7 +266,9 @@ func init() {
 			guard(r, func() { rulePool(r) })
 			guard(r, func() { ruleRowDelete(r) })
 			guard(r, func() { foundation(r) })
-			guard(r, func() { ruleFootprint(r, "E.footprint", footSel("(*column.Collection).Replay", "(*column.Collection).Query"), 2) })
+			guard(r, func() {
+				ruleFootprint(r, "E.footprint", footSel("(*column.Collection).Replay", "(*column.Collection).Query"), 2)
+			})
 			guard(r, func() { ruleWireGrammar(r) })
 			guard(r, func() { ruleEmitOnce(r) }) // a commit that is applied but not emitted never reaches the replica
 			guard(r, func() { ruleCommitWritesOwnChunk(r) })
@@ -260,7 +280,9 @@ func init() {
 		NotDecided:  []string{"equality of contents", "behaviour of s2", "C07.wire (state stream grammar) not built"},
 		Assumptions: []string{assumeA3},
 		Run: func(r *Report) {
-			guard(r, func() { ruleUnits(r, "C07.abs", "every Snapshot implementation, the state writer and PutBitmap/Chunk.Range hand absolute offsets to the destination buffer and index per-block storage with relative ones", 6, snapshotFns) })
+			guard(r, func() {
+				ruleUnits(r, "C07.abs", "every Snapshot implementation, the state writer and PutBitmap/Chunk.Range hand absolute offsets to the destination buffer and index per-block storage with relative ones", 6, snapshotFns)
+			})
 			guard(r, func() { ruleSnapshotCount(r) })
 			guard(r, func() { ruleWholeCommits(r) })
 			guard(r, func() { ruleMarkerArms(r) })
@@ -279,7 +301,9 @@ func init() {
 			guard(r, func() { ruleReplay(r) })
 			guard(r, func() { foundation(r) })
 			guard(r, func() { ruleStateFlush(r) })
-			guard(r, func() { ruleFootprint(r, "E.footprint", footSel("(*column.Collection).Snapshot", "(*column.Collection).Restore"), 2) })
+			guard(r, func() {
+				ruleFootprint(r, "E.footprint", footSel("(*column.Collection).Snapshot", "(*column.Collection).Restore"), 2)
+			})
 			guard(r, func() { ruleWireGrammar(r) })
 			guard(r, func() { ruleSnapshotComplete(r) })
 			guard(r, func() { ruleL5emit(r) }) // a commit applied before Snapshot returned and recorded nowhere is a row that differs after Restore
@@ -297,7 +321,9 @@ func init() {
 			guard(r, func() { ruleRestoreGuard(r) })
 			guard(r, func() { ruleIsolation(r) })
 			guard(r, func() { ruleL4(r) })
-			guard(r, func() { ruleUnits(r, "C08.units", unitsText, 2, anyOf(snapshotFns, fnsel("(*column.Txn).rangeWrite", "(*column.Collection).readChunk"))) })
+			guard(r, func() {
+				ruleUnits(r, "C08.units", unitsText, 2, anyOf(snapshotFns, fnsel("(*column.Txn).rangeWrite", "(*column.Collection).readChunk")))
+			})
 			guard(r, func() { ruleWholeCommits(r) })
 			guard(r, func() { ruleSnapshotCount(r) })
 			guard(r, func() { ruleReplay(r) })
@@ -305,7 +331,9 @@ func init() {
 			guard(r, func() { ruleMarkerArms(r) })
 			guard(r, func() { ruleL1(r, backfillExempt) })
 			guard(r, func() { foundation(r) })
-			guard(r, func() { ruleFootprint(r, "E.footprint", footSel("(*column.Collection).Snapshot", "(*column.Collection).Restore", "(*column.Collection).Query"), 3) })
+			guard(r, func() {
+				ruleFootprint(r, "E.footprint", footSel("(*column.Collection).Snapshot", "(*column.Collection).Restore", "(*column.Collection).Query"), 3)
+			})
 			// the commits recorded during the snapshot travel through the commit codec: one that drops or
 			// misplaces a section loses a commit from the middle or applies it partially
 			guard(r, func() { ruleWireGrammar(r) })
@@ -341,7 +369,9 @@ func init() {
 			guard(r, func() { ruleSingleSection(r) })
 			guard(r, func() { ruleBlockLoops(r) })
 			guard(r, func() { foundation(r) })
-			guard(r, func() { ruleFootprint(r, "E.footprint", footSel("(*column.Collection).Query", "(*column.Collection).QueryAt", "(*column.Txn).QueryAt", "(*column.Txn).Range"), 3) })
+			guard(r, func() {
+				ruleFootprint(r, "E.footprint", footSel("(*column.Collection).Query", "(*column.Collection).QueryAt", "(*column.Txn).QueryAt", "(*column.Txn).Range"), 3)
+			})
 		}})
 	register(&PropSpec{ID: "C11",
 		Explanation: "Insert offsets never collide, reused offsets carry no stale data — structural part. (C11.reserve, L4) next() picks and marks the offset in one exclusive section, every fill-list access is under the collection mutex, the counter is atomic-only; (C11.markers) commitMarkers sets/clears fill bits per marker and recounts; (C03.rowdelete) row deletes reach every registry entry; (C01.arms, C03.arms) every kind's Delete arm clears presence / the index bit; (C11.order) updates are applied before markers; (C02.release) failing inserts and rollbacks release their offsets." + staticNote,
@@ -357,9 +387,13 @@ func init() {
 			guard(r, func() { ruleCommitOrder(r, true, false) })
 			guard(r, func() { ruleFillSiblings(r) })
 			guard(r, func() { ruleRelease(r) })
-			guard(r, func() { ruleUnits(r, "C11.units", unitsText, 5, anyOf(reserveFns, applyUnitFns("numeric", "string", "enum", "key", "bool", "index"))) })
+			guard(r, func() {
+				ruleUnits(r, "C11.units", unitsText, 5, anyOf(reserveFns, applyUnitFns("numeric", "string", "enum", "key", "bool", "index")))
+			})
 			guard(r, func() { foundation(r) })
-			guard(r, func() { ruleFootprint(r, "E.footprint", footSel("(*column.Txn).Insert", "(*column.Collection).Insert", "(*column.Txn).InsertKey", "(*column.Txn).UpsertKey", "(*column.Collection).Query"), 4) })
+			guard(r, func() {
+				ruleFootprint(r, "E.footprint", footSel("(*column.Txn).Insert", "(*column.Collection).Insert", "(*column.Txn).InsertKey", "(*column.Txn).UpsertKey", "(*column.Collection).Query"), 4)
+			})
 		}})
 	register(&PropSpec{ID: "C12",
 		Explanation: "Primary keys behave like a map — structural part. (C12.arms) key column Apply maintains the lookup table: insert on Put with the stored value as key, removal of the row's previous key on overwrite, removal of the stored key on Delete; (C12.paths) guard structure of InsertKey/UpsertKey/QueryKey/DeleteKey/SetKey; (L6) table accessed under the key lock; (C12.atomic) existence test and insertion form one atomic step; (C11.order) a put+delete of one row leaves no table entry." + staticNote,
@@ -372,10 +406,14 @@ func init() {
 			guard(r, func() { ruleL6(r) })
 			guard(r, func() { ruleKeyAtomic(r) })
 			guard(r, func() { ruleCommitOrder(r, true, false) })
-			guard(r, func() { ruleUnits(r, "C12.units", unitsText, 4, anyOf(applyUnitFns("key"), fnsel("(*column.Txn).InsertKey", "(*column.Txn).UpsertKey", "(*column.Txn).QueryKey", "(*column.Txn).DeleteKey", "(column.Row).Key", "(column.Row).SetKey"))) })
+			guard(r, func() {
+				ruleUnits(r, "C12.units", unitsText, 4, anyOf(applyUnitFns("key"), fnsel("(*column.Txn).InsertKey", "(*column.Txn).UpsertKey", "(*column.Txn).QueryKey", "(*column.Txn).DeleteKey", "(column.Row).Key", "(column.Row).SetKey")))
+			})
 			guard(r, func() { ruleRowDelete(r) })
 			guard(r, func() { foundation(r) })
-			guard(r, func() { ruleFootprint(r, "E.footprint", footSel("(*column.Txn).InsertKey", "(*column.Txn).UpsertKey", "(*column.Txn).QueryKey", "(*column.Txn).DeleteKey", "(column.Row).SetKey", "(column.Row).Key", "(column.rwKey)."), 6) })
+			guard(r, func() {
+				ruleFootprint(r, "E.footprint", footSel("(*column.Txn).InsertKey", "(*column.Txn).UpsertKey", "(*column.Txn).QueryKey", "(*column.Txn).DeleteKey", "(column.Row).SetKey", "(column.Row).Key", "(column.rwKey)."), 6)
+			})
 		}})
 	register(&PropSpec{ID: "C13",
 		Explanation: "Truncated files never restore silently wrong state — structural skeleton only (the property is mostly about bytes and not applicable to static analysis). (C13.err) error-flow: no error of a read is discarded in Commit.ReadFrom, Buffer.ReadFrom, readChunksFrom, Log.Range, readState, Restore (one exception with reason); (C13.whole) the log callback runs only for completely decoded commits, a block commits only after all its buffers were read, the log is touched only after the state was read." + staticNote,
@@ -424,12 +462,16 @@ func init() {
 			guard(r, func() { ruleL5emit(r) })
 			guard(r, func() { ruleEmitFields(r) })
 			guard(r, func() { ruleCopies(r) })
-			guard(r, func() { ruleUnits(r, "C15.units", unitsText, 1, fnsel("(*column.Txn).commit", "(*column.Txn).rangeWrite")) })
+			guard(r, func() {
+				ruleUnits(r, "C15.units", unitsText, 1, fnsel("(*column.Txn).commit", "(*column.Txn).rangeWrite"))
+			})
 			guard(r, func() { ruleQueryPaths(r) })
 			guard(r, func() { rulePool(r) })
 			guard(r, func() { ruleCommitOrder(r, false, true) })
 			guard(r, func() { ruleCommitUpdates(r) })
-			guard(r, func() { ruleFootprint(r, "E.footprint", footSel("(*column.Collection).Query", "(*column.Collection).Replay"), 2) })
+			guard(r, func() {
+				ruleFootprint(r, "E.footprint", footSel("(*column.Collection).Query", "(*column.Collection).Replay"), 2)
+			})
 			guard(r, func() { ruleSerialisersReadOnly(r) }) // the logger is handed the transaction's own slice once per block
 		}})
 	register(&PropSpec{ID: "C16",
@@ -443,14 +485,18 @@ func init() {
 			guard(r, func() { ruleCursor(r) })
 			guard(r, func() { ruleAlias(r, "sortindex") })
 			guard(r, func() { ruleCommitOrder(r, true, false) })
-			guard(r, func() { ruleUnits(r, "C16.units", unitsText, 2, anyOf(applyUnitFns("sortindex"), fnsel("(*column.Txn).Ascend"))) })
+			guard(r, func() {
+				ruleUnits(r, "C16.units", unitsText, 2, anyOf(applyUnitFns("sortindex"), fnsel("(*column.Txn).Ascend")))
+			})
 			guard(r, func() { ruleCommitUpdates(r) })
 			guard(r, func() { ruleRowDelete(r) })
 			guard(r, func() { ruleRegister(r) })
 			guard(r, func() { ruleBackfill(r) })
 			guard(r, func() { ruleRegistryLists(r) })
 			guard(r, func() { foundation(r) })
-			guard(r, func() { ruleFootprint(r, "E.footprint", footSel("(*column.Txn).Ascend", "(*column.Collection).CreateSortIndex", "(*column.Collection).Query"), 3) })
+			guard(r, func() {
+				ruleFootprint(r, "E.footprint", footSel("(*column.Txn).Ascend", "(*column.Collection).CreateSortIndex", "(*column.Collection).Query"), 3)
+			})
 			guard(r, func() { ruleStorageArms(r) }) // the sorted index sees a string merge only through the Put that Swap* rewrites it into
 			guard(r, func() { ruleInitializeFirst(r) })
 		}})
@@ -462,11 +508,15 @@ func init() {
 			guard(r, func() { ruleExpire(r) })
 			guard(r, func() { ruleTTLNames(r) })
 			guard(r, func() { ruleMergeQueued(r) })
-			guard(r, func() { ruleUnits(r, "C17.units", unitsText, 1, fnsel("(*column.Collection).vacuum", "(*column.Txn).DeleteAt", "(column.rwTTL).", "(column.Row).SetTTL", "(column.Row).TTL")) })
+			guard(r, func() {
+				ruleUnits(r, "C17.units", unitsText, 1, fnsel("(*column.Collection).vacuum", "(*column.Txn).DeleteAt", "(column.rwTTL).", "(column.Row).SetTTL", "(column.Row).TTL"))
+			})
 			guard(r, func() { ruleRowDelete(r) }) // a deleted row's deadline must not survive for the next occupant of the offset
 			guard(r, func() { rulePeriodicCleanup(r) })
 			guard(r, func() { foundation(r) })
-			guard(r, func() { ruleFootprint(r, "E.footprint", footSel("(column.rwTTL).", "(column.Row).TTL", "(column.Row).SetTTL"), 4) })
+			guard(r, func() {
+				ruleFootprint(r, "E.footprint", footSel("(column.rwTTL).", "(column.Row).TTL", "(column.Row).SetTTL"), 4)
+			})
 			guard(r, func() { ruleVacuumVisitsEveryRow(r) })
 		}})
 	register(&PropSpec{ID: "C18",
@@ -505,7 +555,9 @@ func init() {
 			guard(r, func() { ruleRegistryLists(r) })
 			guard(r, func() { rulePool(r) })
 			guard(r, func() { ruleQueryPaths(r) })
-			guard(r, func() { ruleFootprint(r, "E.footprint", footSel("(*column.Collection).CreateTrigger", "(*column.Collection).DropTrigger", "(*column.Collection).Query"), 3) })
+			guard(r, func() {
+				ruleFootprint(r, "E.footprint", footSel("(*column.Collection).CreateTrigger", "(*column.Collection).DropTrigger", "(*column.Collection).Query"), 3)
+			})
 		}})
 }
 
